@@ -109,6 +109,8 @@
 // #![warn(missing_docs)] -- suppressed at top of file (P3.7 task)
 #![deny(unsafe_op_in_unsafe_fn)]
 
+#[cfg(feature = "verif-hooks")]
+pub mod verif_hooks;
 pub mod algorithms;
 pub mod blob_store;
 pub mod cache;
